@@ -16,6 +16,7 @@ REGISTRY = {
     "C04": "ap",
     "C09": "heading",
     "C10": "filtering",
+    "C12": "sensing",
     "C14": "labels",
     "C15": "config",
     "C18": "transforms",
